@@ -24,6 +24,10 @@ const (
 	BadSemantic = "bad-semantic" // parsable but invalid Spec under a Spec name
 	Empty       = "empty"        // empty file under a Spec name
 	NonSpec     = "nonspec"      // valid Spec content under a name that is not a Spec name
+	// faults that are not file content (C13)
+	DanglingLink = "dangling-link" // symlink under a Spec name whose target does not exist (the file vanished)
+	LinkLoop     = "link-loop"     // symlink under a Spec name pointing at itself
+	LinkToDir    = "link-to-dir"   // symlink under a Spec name pointing at a directory
 )
 
 // File is one regular file of a directory.
@@ -33,6 +37,30 @@ type File struct {
 	Data   []byte
 	Spec   *specs.Spec // the content for Valid and NonSpec files
 	Marker string
+	Link   string // if set the entry is a symbolic link with this target
+}
+
+// NewLinkFault returns a Spec-named entry that is a broken symbolic link.
+func (l *Layout) NewLinkFault(dirPath, name, kind string) *File {
+	l.serial++
+	f := &File{Name: name, Kind: kind, Marker: fmt.Sprintf("%s@%d", name, l.serial)}
+	switch kind {
+	case DanglingLink:
+		f.Link = filepath.Join(dirPath, "vanished-target")
+	case LinkLoop:
+		f.Link = filepath.Join(dirPath, name)
+	case LinkToDir:
+		f.Link = dirPath
+	}
+	return f
+}
+
+func writeEntry(path string, f *File) error {
+	if f.Link != "" {
+		_ = os.Remove(path)
+		return os.Symlink(f.Link, path)
+	}
+	return os.WriteFile(path, f.Data, 0o644)
 }
 
 // Dir is one directory of the pool.
@@ -336,7 +364,7 @@ func (l *Layout) Materialise() error {
 			return err
 		}
 		for _, f := range d.Files {
-			if err := os.WriteFile(filepath.Join(p, f.Name), f.Data, 0o644); err != nil {
+			if err := writeEntry(filepath.Join(p, f.Name), f); err != nil {
 				return err
 			}
 		}
@@ -365,7 +393,7 @@ func (l *Layout) PutFile(d int, f *File) error {
 	}
 	// write to a temporary name outside the Spec name space, then rename: readers never see a partial file
 	tmp := filepath.Join(l.Path(d), ".verif-tmp")
-	if err := os.WriteFile(tmp, f.Data, 0o644); err != nil {
+	if err := writeEntry(tmp, f); err != nil {
 		return err
 	}
 	if err := os.Rename(tmp, filepath.Join(l.Path(d), f.Name)); err != nil {
